@@ -288,7 +288,7 @@ func (m *Machine) perAlternative(fn *ssa.Function, args []value, env []value, si
 	switch fn.Pkg.Pkg.Path() {
 	case "github.com/6tail/lunar-go/LunarUtil", "github.com/6tail/lunar-go/FotoUtil", "github.com/6tail/lunar-go/TaoUtil", "github.com/6tail/lunar-go/HolidayUtil":
 	default:
-		if fn.Name() != "convertJieQi" {
+		if fn.Name() != "convertJieQi" && fn.Name() != "vhHashStr" {
 			return nil, false
 		}
 	}
